@@ -14,7 +14,7 @@ import struct
 
 from lib import mbi_build as B
 from lib import tlc
-from lib.common import Machinery, import_spsdk, rng, say, scratch
+from lib.common import ROOT, Machinery, import_spsdk, rng, say, scratch
 from lib.par import pmap
 from lib.verdict import Verdict
 
@@ -68,6 +68,15 @@ def pad4(b):
 # ------------------------------------------------------------------ observation of the real code
 def observe(job):
     """One case on the real builder/parser -> {"h": header trace, "p": parse trace, "meta": ...} or a refusal record."""
+    import shutil
+
+    try:
+        return _observe(job)
+    finally:
+        shutil.rmtree(os.path.join(scratch(), "c01", f"w{job['idx']}{job['route']}"), ignore_errors=True)
+
+
+def _observe(job):
     case, member, idx, route = job["case"], job["member"], job["idx"], job["route"]
     x = case["x"]
     o = concretise(case, member, idx, route)
@@ -358,32 +367,42 @@ def decide(traces):
     return [tuple(t) for t in res.tuples("REJ")]
 
 
-def canary(comps):
-    """One real CRC image: its traces must be accepted, the same traces with one corrupted number rejected."""
-    comp = next((c for c in comps if c["type"] == 5 and "TrustZone" in c["mixins"] and "LoadAddress" not in c["mixins"]), None) or \
-        next(c for c in comps if c["type"] == 5)
-    member = dict(comp["members"][0])
-    member["sub_labels"] = sub_labels(member)
-    x = {"appLen": 100, "tail": "plain", "tz": "disabled" if "TrustZone" in comp["mixins"] else ("enabled" if "TrustZoneMandatory" in comp["mixins"] else "none"),
-         "tzLen": 0, "hwKey": False, "ks": False, "relocs": [], "kind": "none", "certLen": 0, "sigLen": 0, "iskLen": 0, "imgVer": 0, "sub": 0,
-         "fwVer": 0, "digestOpt": "none", "digest": 0, "load": [0, 0]}
-    res = observe({"case": {"c": comp["id"], "x": x}, "member": member, "idx": 999999, "route": "ctor"})
-    if "refused" in res:
-        raise Machinery(f"canary image was refused by the builder: {res['refused']}")
-    good_h, good_p = dict(res["h"], id="good-h"), dict(res["p"], id="good-p")
-    bad = []
-    for tid, src, evn, field, f in (("bad-len", good_h, "ExpLen", "len", lambda z: z + 4), ("bad-type", good_h, "ExpFlags", "type", lambda z: z ^ 1),
-                                    ("bad-crc", good_h, "ExpW28", "crcOk", lambda z: False), ("bad-app", good_p, "ParseApp", "len", lambda z: z - 4),
-                                    ("bad-diff", good_p, "ReObj", "diffs", lambda z: [[60, 61]])):
-        t = json.loads(json.dumps(src))
-        t["id"] = tid
-        e = next(e for e in t["ev"] if e["ev"] == evn)
-        e[field] = f(e[field])
-        bad.append(t)
-    rej = decide([good_h, good_p] + bad)
-    if {r[0] for r in rej} != {t["id"] for t in bad} or len(rej) != len(bad):
-        raise Machinery(f"canary failed: rejected {sorted(rej)}; expected exactly one event of each of the 5 corrupted traces\n{json.dumps(good_p)[:1500]}")
-    return f"real CRC image of {member['family']}: 2 traces accepted, 5 single-field corruptions rejected"
+def canary():
+    """Recorded traces of three real images (anchors/C01/canary_traces.json: CRC XIP with custom TrustZone, v2.1 signed with ISK and manifest,
+    encrypted load-to-RAM with key store - recorded once on the pinned tree, so the canary does not depend on the tree under test)
+    must be accepted; the same traces with ONE corrupted number each must be rejected at exactly that event."""
+    with open(os.path.join(ROOT, "anchors", "C01", "canary_traces.json")) as f:
+        rec = json.load(f)
+    good, bad, expect = [], [], set()
+    corr = [("h", "ExpLen", "len", lambda z: z + 4), ("h", "ExpFlags", "type", lambda z: z ^ 1), ("h", "ExpFlags", "ver", lambda z: z + 1),
+            ("h", "ExpW28", "w", lambda z: [z[0], z[1] ^ 4]), ("h", "ExpW28", "crcOk", lambda z: False), ("h", "ExpLoad", "load", lambda z: [z[0] ^ 1, z[1]]),
+            ("h", "ExpLayout", "tz", lambda z: z + 4), ("h", "ExpLayout", "iv", lambda z: z - 16), ("h", "ExpManifest", "fw", lambda z: z + 1),
+            ("p", "ParseApp", "len", lambda z: z - 4), ("p", "ParseApp", "diffWords", lambda z: z + [48]), ("p", "ParseTz", "kind", lambda z: "disabled"),
+            ("p", "ParseWords", "imgVer", lambda z: z + 1), ("p", "ParseKs", "dataEq", lambda z: False), ("p", "ParseMisc", "fwVer", lambda z: z + 1),
+            ("p", "ReObj", "diffs", lambda z: z + [[60, 61]]), ("p", "ReCfg", "len", lambda z: z + 4)]
+    for i, c in enumerate(rec):
+        for part in ("h", "p"):
+            good.append(dict(c[part], id=f"good-{i}{part}"))
+        for part, evn, field, f in corr:
+            t = json.loads(json.dumps(c[part]))
+            hit = [k for k, e in enumerate(t["ev"]) if e["ev"] == evn and field in e]
+            if not hit:
+                continue
+            e = t["ev"][hit[0]]
+            old = e[field]
+            e[field] = f(old)
+            if e[field] == old or (evn == "ExpW28" and field == "w" and c["h"]["cls"]["type"] in (2, 5)) or \
+                    (evn == "ExpW28" and field == "crcOk" and c["h"]["cls"]["type"] not in (2, 5)) or (field in ("tz", "iv") and old < 0) or \
+                    (evn == "ParseKs" and not c["h"]["x"]["ks"]):
+                continue  # this number is not constrained for this image type
+            t["id"] = f"bad-{i}{part}-{evn}.{field}"
+            bad.append(t)
+            expect.add((t["id"], hit[0] + 1, evn))
+    rej = decide(good + bad)
+    got = {(r[0], r[1], r[3]) for r in rej}
+    if got != expect or len(expect) < 30:
+        raise Machinery(f"canary failed: unexpected {sorted(got - expect)[:6]}, missed {sorted(expect - got)[:6]} ({len(expect)} corruptions)")
+    return f"{len(good)} recorded traces of 3 real images accepted, {len(expect)} single-number corruptions rejected at the corrupted event"
 
 
 def run(tier):
@@ -410,7 +429,7 @@ def run(tier):
         raise Machinery(f"GEN emitted {len(cases)} cases for {len(modelled)} of {len(comps)} compositions ({g.distinct} states)")
     say(f"[C01] region algebra checked: {g.distinct} states, {len(cases)} abstract cases in {len(modelled)} compositions; "
         f"{len(not_modelled)} compositions without vector-table header not modelled ({v.timer.s()}s)")
-    v.extra["canary"] = canary(comps)
+    v.extra["canary"] = canary()
 
     # ---- replay on the real builder
     if tier == "quick":
